@@ -119,6 +119,11 @@ func (c *P2Claims) SetCertificationReference(v string) error {
 }
 
 func (c *P2Claims) SetSoftwareComponents(scs []ISwComponent) error {
+	if scs == nil {
+		// unlike profile 1, profile 2 has no "no software measurements" claim
+		return fmt.Errorf("%w: there MUST be at least one entry", ErrWrongSyntax)
+	}
+
 	if c.SwComponents == nil {
 		c.SwComponents = &SwComponents[*SwComponent]{}
 	}
